@@ -77,6 +77,11 @@ def positions(parts, n):
     return sorted(out)
 
 
+def site_positions(parts, n):
+    """zero-width parts (between-bases sites): (boundary position mod n, strand)"""
+    return sorted((s % n, st) for (s, e, st) in parts if s == e)
+
+
 class Driver(object):
     """Batch client: run(lines) -> replies (same length)."""
 
